@@ -7,16 +7,26 @@ package main
 
 import (
 	"context"
+	"errors"
 	"fmt"
+	"net"
+	"os"
+	"path/filepath"
 	"sort"
 	"strings"
+	"sync/atomic"
 	"time"
 
 	"github.com/miekg/dns"
 	"github.com/semihalev/sdns/config"
+	"github.com/semihalev/sdns/internal/contextutil"
 	"github.com/semihalev/sdns/internal/mock"
 	"github.com/semihalev/sdns/internal/verif/l3"
 	"github.com/semihalev/sdns/middleware"
+	"github.com/semihalev/sdns/middleware/cache"
+	"github.com/semihalev/sdns/middleware/edns"
+	"github.com/semihalev/sdns/middleware/failover"
+	"github.com/semihalev/sdns/middleware/resolver"
 )
 
 type sysOpts struct {
@@ -27,6 +37,8 @@ type sysOpts struct {
 	QMin     int    // qname minimisation level (0 = off)
 	DNSSEC   bool
 	MaxDepth int
+	NoCache  bool // pipeline without the cache middleware: the resolver has no Store
+	Failover bool // failover middleware (one scripted fallback server) between cache and resolver
 }
 
 type sysPipe struct {
@@ -43,9 +55,79 @@ const (
 	sysQueryTimeout    = 1500 * time.Millisecond
 )
 
+// customPipe builds what l3.NewPipe builds, with the chain shapes l3 does not offer: no cache
+// (the resolver runs store-less, as when it is used programmatically) and/or the failover
+// middleware in front of the resolver.
+func customPipe(t *topo, o sysOpts, tweak func(cfg *config.Config)) *l3.Pipe {
+	w := t.W
+	base := os.Getenv("VERIF_DIR")
+	if base == "" {
+		base = "/verif"
+	}
+	dir := filepath.Join(base, "build", "tmp-l3", fmt.Sprintf("p%d-c12-%d", os.Getpid(), customSeq.Add(1)))
+	_ = os.MkdirAll(dir, 0o750)
+	cfg := new(config.Config)
+	cfg.RootServers = []string{net.JoinHostPort(w.Root.Servers[0].IP.String(), "53")}
+	cfg.Maxdepth = 30
+	cfg.Expire = 600
+	cfg.CacheSize = 4096
+	cfg.Directory = dir
+	cfg.DNSSEC = "off"
+	if o.DNSSEC {
+		cfg.DNSSEC = "on"
+		if w.Root.Signed {
+			cfg.RootKeys = []string{w.Root.Keys[0].Key.String()}
+		}
+	}
+	tweak(cfg)
+	if o.Failover {
+		fb := w.NewServer("fallback")
+		fb.SetBehaviour(l3.Behaviour{Tamper: func(q dns.Question, honest *dns.Msg, tcp bool) *dns.Msg {
+			m := new(dns.Msg)
+			m.MsgHdr = honest.MsgHdr
+			m.Question = honest.Question
+			m.Response, m.Rcode, m.RecursionAvailable = true, dns.RcodeSuccess, true
+			m.Answer = []dns.RR{&dns.A{Hdr: dns.RR_Header{Name: q.Name, Rrtype: dns.TypeA, Class: dns.ClassINET, Ttl: 60}, A: net.IPv4(192, 0, 2, 98)}}
+			if op := honest.IsEdns0(); op != nil {
+				m.Extra = append(m.Extra, op)
+			}
+			return m
+		}})
+		t.Fallback = fb
+		cfg.FallbackServers = []string{fb.Addr}
+	}
+	reg := middleware.NewRegistry()
+	var c *cache.Cache
+	var h *resolver.DNSHandler
+	reg.Register("edns", func(cfg *config.Config) middleware.Handler { return edns.New(cfg) })
+	if !o.NoCache {
+		reg.Register("cache", func(cfg *config.Config) middleware.Handler { c = cache.New(cfg); return c })
+	}
+	if o.Failover {
+		reg.Register("failover", func(cfg *config.Config) middleware.Handler { return failover.New(cfg) })
+	}
+	reg.Register("resolver", func(cfg *config.Config) middleware.Handler { h = resolver.New(cfg); return h })
+	p := reg.Build(cfg)
+	middleware.VerifL3AutoWire(p)
+	r := resolver.VerifResolver(h)
+	amap := map[string]string{}
+	for k, v := range w.AddrMap {
+		amap[k] = v
+	}
+	resolver.VerifSetResolveTarget(r, func(addr string) string {
+		if t, ok := amap[addr]; ok {
+			return t
+		}
+		return "127.0.0.1:9"
+	})
+	return &l3.Pipe{W: w, Cfg: cfg, P: p, Cache: c, Handler: h, Resolver: r, Dir: dir}
+}
+
+var customSeq atomic.Uint32
+
 func newSysPipe(t *topo, o sysOpts) *sysPipe {
 	sp := &sysPipe{T: t, O: o}
-	sp.P = l3.NewPipe(t.W, l3.PipeOpts{DNSSEC: o.DNSSEC, Tweak: func(cfg *config.Config) {
+	tweak := func(cfg *config.Config) {
 		cfg.RecursionFirewall = config.RecursionFirewallConfig{
 			Mode:               config.RecursionFirewallMode(o.Mode),
 			MaxOutboundQueries: o.OutCap,
@@ -58,7 +140,12 @@ func newSysPipe(t *topo, o sysOpts) *sysPipe {
 		if o.MaxDepth > 0 {
 			cfg.Maxdepth = o.MaxDepth
 		}
-	}})
+	}
+	if o.NoCache || o.Failover {
+		sp.P = customPipe(t, o, tweak)
+	} else {
+		sp.P = l3.NewPipe(t.W, l3.PipeOpts{DNSSEC: o.DNSSEC, Tweak: tweak})
+	}
 	sp.Policy = middleware.MustRecursionWorkPolicyFromConfig(sp.P.Cfg.RecursionFirewall)
 	sp.Cfg = configuredCaps([nKinds]uint32{o.OutCap, o.IntCap, 0, 0, o.SigCap, 0, 0, 0})
 	return sp
@@ -77,6 +164,9 @@ type qres struct {
 	Snap    *middleware.RecursionWorkSnapshot // only when the harness owns the ledger
 	EnfErr  bool                              // harness-owned ledger latched a rejection
 	Touched int                               // scripted servers that received at least one packet
+	TrustQs int                               // distinct DS / DNSKEY questions that reached an upstream
+	FBPkts  int64                             // packets the failover fallback server received
+	Latched int                               // kind+1 of the rejection latched when Chain.Next returned (0 = none)
 }
 
 func (r qres) packets() int64 {
@@ -127,11 +217,25 @@ func (sp *sysPipe) query(name string, qtype uint16, edns, do bool, client string
 	for i, s := range sp.T.W.Servers {
 		before[i] = s.UDPQueries.Load() + s.TCPQueries.Load()
 	}
+	trustBefore := trustQuestions(sp.T.W)
+	var fb0 int64
+	if sp.T.Fallback != nil {
+		fb0 = sp.T.Fallback.UDPQueries.Load() + sp.T.Fallback.TCPQueries.Load()
+	}
 	w := mock.NewWriter("udp", client)
 	ch := sp.P.P.NewChain()
 	ch.Reset(w, req)
 	// exactly the deadline the real entry point (server.serveMsgBy) gives a request
-	ctx, cancel := context.WithTimeout(context.Background(), sp.P.Cfg.QueryTimeout.Duration)
+	var ctx context.Context
+	var cancel context.CancelFunc
+	if own {
+		ctx, cancel = context.WithTimeout(context.Background(), sp.P.Cfg.QueryTimeout.Duration)
+	} else {
+		// what the server hands the chain: a lazy deadline carrier; the outer Chain then owns the ledger
+		// through the request-lifetime pin (the production ownership path)
+		lz := contextutil.WithLazyTimeout(context.Background(), sp.P.Cfg.QueryTimeout.Duration)
+		ctx, cancel = lz, lz.Cancel
+	}
 	defer cancel()
 	var ledger *middleware.RecursionWorkLedger
 	if own {
@@ -142,6 +246,12 @@ func (sp *sysPipe) query(name string, qtype uint16, edns, do bool, client string
 	ch.Next(ctx)
 	el := time.Since(start)
 	var out qres
+	if ledger != nil {
+		var le *middleware.RecursionWorkLimitError
+		if errors.As(ledger.EnforcementError(), &le) {
+			out.Latched = int(le.Kind) + 1
+		}
+	}
 	if w.Written() {
 		out.Msg = w.Msg().Copy()
 	}
@@ -150,14 +260,37 @@ func (sp *sysPipe) query(name string, qtype uint16, edns, do bool, client string
 	out.Elapsed = el
 	out.UDP, out.TCP, out.Conns = u1-u0, t1-t0, c1-c0
 	for i, s := range sp.T.W.Servers {
-		if i < len(before) && s.UDPQueries.Load()+s.TCPQueries.Load() > before[i] {
+		if i < len(before) && s != sp.T.Fallback && s.UDPQueries.Load()+s.TCPQueries.Load() > before[i] {
 			out.Touched++
 		}
+	}
+	for q := range trustQuestions(sp.T.W) {
+		if !trustBefore[q] {
+			out.TrustQs++
+		}
+	}
+	if sp.T.Fallback != nil {
+		out.FBPkts = sp.T.Fallback.UDPQueries.Load() + sp.T.Fallback.TCPQueries.Load() - fb0
 	}
 	if ledger != nil {
 		s := ledger.Snapshot()
 		out.Snap = &s
 		out.EnfErr = ledger.EnforcementError() != nil
+	}
+	return out
+}
+
+// trustQuestions: the distinct DS / DNSKEY questions the scripted servers have been asked so far
+// (every one of them is a chain-of-trust sub-lookup of the resolver: no client asks for them here).
+func trustQuestions(w *l3.World) map[string]bool {
+	out := map[string]bool{}
+	for _, s := range w.Servers {
+		for _, ln := range s.Log {
+			f := strings.Fields(ln)
+			if len(f) == 3 && (f[2] == "43" || f[2] == "48") {
+				out[f[1]+"/"+f[2]] = true
+			}
+		}
 	}
 	return out
 }
